@@ -26,12 +26,12 @@ PROP = dict(
         T('c09_x509_pem_bundle', 'x509_pem_bundle.cc', 8),
         T('c09_crl', 'crl.cc', 10),
         T('c09_ocsp_response', 'ocsp_response.cc', 10),
-        T('c09_pkcs8', 'pkcs8.cc', 7, timeout=25),
-        T('c09_pkcs12', 'pkcs12.cc', 10, timeout=25),
-        T('c09_privkey_any', 'privkey_any.cc', 8, timeout=25),
+        T('c09_pkcs8', 'pkcs8.cc', 7, timeout=40),
+        T('c09_pkcs12', 'pkcs12.cc', 10, timeout=40),
+        T('c09_privkey_any', 'privkey_any.cc', 8, timeout=40),
         T('c09_pubkey_any', 'pubkey_any.cc', 7),
         T('c09_dh_params', 'dh_params.cc', 5),
         T('c09_pem_decode', 'pem_decode.cc', 6),
-        T('c09_load_keys_mem', 'load_keys_mem.cc', 10, timeout=25),
+        T('c09_load_keys_mem', 'load_keys_mem.cc', 10, timeout=40),
     ],
 )
